@@ -245,7 +245,7 @@ static void check_step(const struct track *t, const struct tpre *p, bool timer_f
     if (p->state == track_state_connecting && !timer_fired && !g_pollout) CHECK(t->state == track_state_connecting && t->ip_idx == p->ip_idx && g_connect_calls == 0, "C13: an attempt still in progress is left alone");
     if (t->state == track_state_bad && p->state != track_state_bad) {
 	int expect = g_any_attempt_failed ? g_last_failure_errno : (timer_fired && p->state == track_state_connecting ? ETIMEDOUT : (p->reason ? p->reason : ENOENT));
-	CHECK(t->badness_reason == expect, "C13: the track fails with the errno of the last failed attempt (ETIMEDOUT after tcp.connect_timeout, ENOENT if nothing could be attempted)");
+	CHECK(t->badness_reason == expect, "C06,C13: the track fails with the errno of the last failed attempt (ETIMEDOUT after tcp.connect_timeout, ENOENT if nothing could be attempted)");
     }
     if (p->state == track_state_bad) CHECK(t->state == track_state_bad && t->badness_reason == p->reason && g_connect_calls == 0, "C06: a failed track stays failed with its errno");
 }
@@ -274,7 +274,7 @@ int main(void)
     } else {
 	CHECK(rc == -1, "C13: 0 or -1");
 	if (t->state == track_state_connecting || t->state == track_state_initial_delay) CHECK(e == EAGAIN, "C05,C13: a connect in progress is reported as EAGAIN");
-	else CHECK(t->state == track_state_bad && e == t->badness_reason, "C13: a failed track reports its errno");
+	else CHECK(t->state == track_state_bad && e == t->badness_reason, "C06,C13: a failed track reports its errno");
 	WITNESS(t->state == track_state_bad && t->badness_reason == ETIMEDOUT, "gave up with ETIMEDOUT");
 	WITNESS(t->state == track_state_connecting && g_connect_calls >= 1 && tpre[0].state == track_state_connecting, "moved on to the next address after a failure");
     }
